@@ -1,6 +1,8 @@
 package main
 
 import (
+	"crypto/hkdf"
+	"crypto/sha3"
 	"encoding/json"
 	"fmt"
 	"math"
@@ -111,7 +113,7 @@ func init() {
 		return nil
 	})
 
-	// prngsalt: {"cases":[{seed, salt}]} -> {ev:"Salt", seed, salt, out, err}
+	// prngsalt: {"cases":[{seed, salt}]} -> {ev:"Salt", seed, salt, out, err, ind, inderr}
 	hlib.Register("prngsalt", func(in []byte, out *hlib.Out) error {
 		var req struct {
 			Cases []struct{ Seed, Salt []int }
@@ -120,7 +122,15 @@ func init() {
 			return err
 		}
 		for _, c := range req.Cases {
-			e := map[string]any{"ev": "Salt", "seed": hlib.Ints(hlib.Unints(c.Seed)), "salt": hlib.Ints(hlib.Unints(c.Salt)), "out": []int{}, "err": ""}
+			e := map[string]any{"ev": "Salt", "seed": hlib.Ints(hlib.Unints(c.Seed)), "salt": hlib.Ints(hlib.Unints(c.Salt)), "out": []int{}, "err": "", "ind": []int{}, "inderr": ""}
+			// second observation: the same derivation by an independent implementation (Go standard library HKDF and
+			// SHA3-256, not golang.org/x/crypto and not the function under test). TLC compares; nothing is judged here.
+			if pn := try(func() {
+				k, err := hkdf.Key(sha3.New256, hlib.Unints(c.Seed), hlib.Unints(c.Salt), "", 32)
+				e["ind"], e["inderr"] = hlib.Ints(k), hlib.ErrStr(err)
+			}); pn != "" {
+				e["inderr"] = "panic: " + pn
+			}
 			pn := try(func() {
 				o, err := tls.VerifSaltedSeed(hlib.Unints(c.Seed), string(hlib.Unints(c.Salt)))
 				e["out"], e["err"] = hlib.Ints(o), hlib.ErrStr(err)
